@@ -1,0 +1,52 @@
+//go:build verif && (verif_all || verif_c17)
+// +build verif
+// +build verif_all verif_c17
+
+package gocql
+
+// Verification hooks (build tag `verif`) for the control-connection part of C17 (Session.Close against the
+// heartbeat goroutine and reconnects of the control connection). Add-only thin wrappers, no logic.
+
+import "sync/atomic"
+
+// VerifControlState reads the session's controlConn: state (0 starting, 1 started, -1 closing), the
+// `reconnecting` flag, and whether a control connection is stored and not closed. ok=false: no control connection.
+func VerifControlState(s *Session) (state, reconnecting int32, live bool, ok bool) {
+	c := s.control
+	if c == nil {
+		return 0, 0, false, false
+	}
+	ch := c.getConn()
+	live = ch != nil && !ch.conn.Closed()
+	return atomic.LoadInt32(&c.state), atomic.LoadInt32(&c.reconnecting), live, true
+}
+
+// VerifControl is a handle on a controlConn that is NOT the session's own: created by createControlConn and
+// never connected, so that the order of its heartBeat() goroutine's first instruction and close() can be chosen.
+type VerifControl struct{ c *controlConn }
+
+// VerifNewControlConn is createControlConn(s).
+func VerifNewControlConn(s *Session) *VerifControl { return &VerifControl{c: createControlConn(s)} }
+
+// HeartBeat is controlConn.heartBeat (what `go c.heartBeat()` at the end of controlConn.connect runs); it returns
+// when the heartbeat loop returns.
+func (v *VerifControl) HeartBeat() { v.c.heartBeat() }
+
+// Close is controlConn.close.
+func (v *VerifControl) Close() { v.c.close() }
+
+// State is the controlConn's state word.
+func (v *VerifControl) State() int32 { return atomic.LoadInt32(&v.c.state) }
+
+// NilConns counts the entries of pool.conns that are nil.
+func (v *VerifHostPool) NilConns() int {
+	v.p.mu.RLock()
+	defer v.p.mu.RUnlock()
+	n := 0
+	for _, c := range v.p.conns {
+		if c == nil {
+			n++
+		}
+	}
+	return n
+}
